@@ -170,7 +170,7 @@ def pmap(fn, items, cfg, chunk=None, deadline_s=3600, pin=True, inline_below=0):
         chunk = max(1, min(2000, len(items) // (jobs * 8) or 1))
     chunks = list(_chunks(items, chunk))
     random.Random(cfg.seed).shuffle(chunks)
-    if jobs == 1 or len(chunks) == 1 or len(items) <= inline_below:
+    if inline_below >= 0 and (jobs == 1 or len(chunks) == 1 or len(items) <= inline_below):     # -1: always fork
         for c in chunks:
             yield fn(c)
         return
@@ -205,7 +205,9 @@ def merge_counts(total, part):
             total.setdefault(k, set()).update(v)
         elif isinstance(v, list):
             cur = total.setdefault(k, [])
-            if len(cur) < 2000:
+            if k == 'violations':           # never capped: which ones survive a cap would depend on completion order
+                cur.extend(v)
+            elif len(cur) < 2000:
                 cur.extend(v[:2000 - len(cur)])
         elif isinstance(v, dict):
             merge_counts(total.setdefault(k, {}), v)
@@ -309,6 +311,8 @@ def write_evidence(report, cfg, wall, n_new, n_known, klongpy_file):
 
 def write_replay(pid, v):
     d = os.path.join(VERIF, 'replays', pid)
+    if os.path.realpath(os.environ.get('VERIF_REPO', '/repo')) != '/repo':
+        d = os.path.join('/dev/shm', 'klongpy-verif-replays-other-tree', pid)
     os.makedirs(d, exist_ok=True)
     h = hashlib.sha1((v['key'] + '\x00' + str(v['observed'])).encode('utf8', 'replace')).hexdigest()[:16]
     path = os.path.join(d, h + '.json')
@@ -367,6 +371,7 @@ def main(argv=None):
     if a.dump_violations:
         with open(a.dump_violations, 'w') as f:
             json.dump(report.violations, f, indent=1, default=str)
+    report.violations.sort(key=lambda v: (v['key'], str(v['observed'])))       # deterministic whatever the fan-out did
     new, matched = split_known(a.pid, report.violations)
     printed = set()
     for v, e in matched:
